@@ -222,9 +222,17 @@ where
     let first_delay = config.delay.get_delay(1);
 
     // If we have more attempts and there's a delay, set up hedge timing
+    // Parallel mode only when the delay source is constantly zero; a dynamic delay function
+    // may return zero for one attempt and a real delay for the next
+    let parallel = match &config.delay {
+        HedgeDelay::Immediate => true,
+        HedgeDelay::Fixed(d) => d.is_zero(),
+        HedgeDelay::Dynamic(_) => false,
+    };
+
     if max_attempts > 1 {
         match first_delay {
-            Some(delay) if delay > Duration::ZERO => {
+            Some(delay) if !parallel => {
                 // Latency mode: wait for delay or result
                 let mut delay_fut = std::pin::pin!(tokio::time::sleep(delay));
 
